@@ -361,7 +361,7 @@ _dispatch_transform_to_utf16(dispatch_data_t data, int32_t byteOrder)
 			}
 			if (wch == 0xfeff && offset + i == 3) {
 				// skip the BOM if any, as we already inserted one ourselves
-			} else if (wch >= 0xd800 && wch < 0xdfff) {
+			} else if (wch >= 0xd800 && wch <= 0xdfff) {
 				// Illegal range (surrogate pair)
 				return (bool)false;
 			} else if (wch >= 0x10000) {
